@@ -208,6 +208,229 @@ theorem mergedNames_mem (arrs : List SArr) (n : String) :
   have := h []
   simpa [mergedNames] using this
 
+/-! ## the whole function (what the driver evaluates and the harness compares) -/
+
+/-- **the whole result**: shape and every pixel in row-major order computed by the mechanism are
+those of the specification (the driver sends `overlap false …` as `model` and `overlap true …` as
+`spec`) -/
+theorem overlap_spec (m : Mode) (fill : V) (ndim : Nat) (arrs : List Arr) :
+    overlap false m fill ndim arrs = overlap true m fill ndim arrs := by
+  simp only [overlap, Bool.false_eq_true, if_false, if_true]
+  congr 1
+  apply List.map_congr_left
+  intro p _
+  exact pixel_spec m fill _ p
+
+/-- **a common translation of all offsets leaves the whole result unchanged** (shape and pixels) -/
+theorem overlap_translation_invariant (spc : Bool) (m : Mode) (fill : V) (ndim : Nat) (arrs : List Arr)
+    (t : List Int) (hne : arrs ≠ []) (hoff : ∀ a ∈ arrs, a.off.length = ndim) (ht : t.length = ndim) :
+    overlap spc m fill ndim (arrs.map (shift t)) = overlap spc m fill ndim arrs := by
+  simp only [overlap, translation_invariant ndim arrs t hne hoff ht]
+
+/-- **reordering the inputs leaves the whole result of `mean` and `sum` unchanged** (shape and
+pixels; the offsets are normalised by the same minimum, the bounding box is the same) -/
+theorem overlap_perm_invariant (m : Mode) (hm : m ≠ .replace) (fill : V) (ndim : Nat) (a₁ a₂ : List Arr)
+    (hp : a₁.Perm a₂) : overlap false m fill ndim a₁ = overlap false m fill ndim a₂ := by
+  simp only [overlap, Bool.false_eq_true, if_false, newShape_perm ndim _ _ (normalise_perm ndim a₁ a₂ hp)]
+  congr 1
+  apply List.map_congr_left
+  intro p _
+  exact perm_invariant m hm fill _ _ (normalise_perm ndim a₁ a₂ hp) p
+
+/-- the same array holding NaN everywhere -/
+def nanLike (a : Arr) : Arr := { a with get := fun _ => none }
+
+/-- **`replace` mode: the last writer wins.**  Where the last input places a non-NaN value the
+result is that value; everywhere else the result is what the other inputs give (the last input
+replaced by an all-NaN image of the same shape and offset, so that the bounding box is kept).
+Reordering does change `replace` results in general; this is what holds instead. -/
+theorem replace_last_writer (fill : V) (l : List Arr) (a : Arr) (p : Idx) :
+    mech .replace fill (l ++ [a]) p
+      = match (a.at p).join with
+        | some x => some x
+        | none => mech .replace fill (l ++ [nanLike a]) p := by
+  rw [pixel_spec, pixel_spec]
+  have hc : ∀ b : Arr, contribs (l ++ [b]) p = contribs l p ++ (match (b.at p).join with | some x => [x] | none => []) := by
+    intro b
+    unfold contribs
+    rw [List.filterMap_append]
+    congr 1
+    simp only [List.filterMap_cons, List.filterMap_nil]
+    cases (b.at p).join <;> rfl
+  have hn : ((nanLike a).at p).join = none := by
+    unfold Arr.at
+    by_cases h : (nanLike a).inside p = true
+    · rw [if_pos h]; rfl
+    · rw [if_neg h]; rfl
+  unfold spec
+  rw [hc a, hc (nanLike a), hn]
+  cases h : (a.at p).join with
+  | none => rfl
+  | some x =>
+    simp only
+    cases h2 : contribs l p with
+    | nil => simp
+    | cons c cs => simp
+
+theorem zip_map_self {α β : Type} (l : List α) (f : α → β) : List.zip l (l.map f) = l.map (fun x => (x, f x)) := by
+  induction l with
+  | nil => rfl
+  | cons x xs ih => simp [ih]
+
+/-- the same over the whole result of the code (offsets normalised as the code does): replacing
+the last input by an all-NaN image keeps the bounding box, and the result of `l ++ [a]` is that of
+`l ++ [nanLike a]` overwritten with the non-NaN values of `a` -/
+theorem overlap_replace_last_writer (fill : V) (ndim : Nat) (l : List Arr) (a : Arr) :
+    (overlap false .replace fill ndim (l ++ [a])).1 = (overlap false .replace fill ndim (l ++ [nanLike a])).1 ∧
+    (overlap false .replace fill ndim (l ++ [a])).2
+      = (List.zip (allIdx ((overlap false .replace fill ndim (l ++ [a])).1.map Int.toNat))
+            (overlap false .replace fill ndim (l ++ [nanLike a])).2).map
+          (fun pv => match (({ a with off := sub a.off (minOffset ndim (l ++ [a])) } : Arr).at pv.1).join with
+            | some x => some x
+            | none => pv.2) := by
+  have hm : minOffset ndim (l ++ [nanLike a]) = minOffset ndim (l ++ [a]) := by
+    simp [minOffset, nanLike]
+  have hn : normalise ndim (l ++ [nanLike a])
+      = l.map (fun b => { b with off := sub b.off (minOffset ndim (l ++ [a])) })
+        ++ [nanLike { a with off := sub a.off (minOffset ndim (l ++ [a])) }] := by
+    simp only [normalise, hm, List.map_append, List.map_cons, List.map_nil]
+    rfl
+  have hn' : normalise ndim (l ++ [a])
+      = l.map (fun b => { b with off := sub b.off (minOffset ndim (l ++ [a])) })
+        ++ [{ a with off := sub a.off (minOffset ndim (l ++ [a])) }] := by
+    simp only [normalise, List.map_append, List.map_cons, List.map_nil]
+  have hs : newShape ndim (normalise ndim (l ++ [nanLike a])) = newShape ndim (normalise ndim (l ++ [a])) := by
+    rw [hn, hn']
+    simp [newShape, nanLike]
+  refine ⟨by simp only [overlap, hs], ?_⟩
+  simp only [overlap, Bool.false_eq_true, if_false, hs, zip_map_self, List.map_map]
+  apply List.map_congr_left
+  intro p _
+  simp only [Function.comp]
+  rw [hn, hn']
+  exact replace_last_writer fill _ _ p
+
+/-! ## structured variant, whole function -/
+
+/-- **the structured merge as a whole**: for every list of structured inputs the mechanism
+(`overlap` applied per merged field name to the inputs' fields, NaN stand-ins where an input lacks
+the field) returns exactly `overlapStructuredSpec` — the function the driver sends as `spec`: the
+common bounding box of all inputs and, per field, the last / mean / sum of the values of the
+inputs that have the field.  (The offset normalisation and the box do not look at the values, so
+they commute with taking a field.) -/
+theorem structured_whole (m : Mode) (fill : V) (ndim : Nat) (arrs : List SArr) :
+    overlapStructured false m fill ndim arrs = overlapStructuredSpec m fill ndim arrs := by
+  unfold overlapStructured overlapStructuredSpec
+  apply List.map_congr_left
+  intro nm _
+  have hview : (arrs.map (fun a => ({ off := a.off, shape := a.shape, get := fun _ => none } : Arr)))
+      = (arrs.map (·.field nm)).map bare := by
+    rw [List.map_map]
+    apply List.map_congr_left
+    intro a _
+    exact (bare_field a nm).symm
+  simp only [hview, minOffset_bare, normalise_bare, newShape_bare]
+  have hN : normalise ndim (arrs.map (·.field nm))
+      = (arrs.map (fun a => ({ a with off := sub a.off (minOffset ndim (arrs.map (·.field nm))) } : SArr))).map (·.field nm) := by
+    simp only [normalise, List.map_map]
+    apply List.map_congr_left
+    intro a _
+    exact field_normalised a nm _
+  simp only [overlap, Bool.false_eq_true, if_false]
+  congr 2
+  apply List.map_congr_left
+  intro p _
+  rw [hN]
+  exact structured_spec m fill _ nm p
+
+/-! ## structured variant with field dtypes (`overlapStructuredD`) -/
+
+/-- mechanism = specification for the dtype-aware structured merge too (errors, casts and all) -/
+theorem structuredD_spec (m : Mode) (fill : V) (ndim : Nat) (arrs : List DArr) :
+    overlapStructuredD false m fill ndim arrs = overlapStructuredD true m fill ndim arrs := by
+  simp only [overlapStructuredD, fieldOutcome, overlap_spec]
+
+/-- **all fields `float64`**: the dtype-aware model never raises and is the plain structured merge
+(`overlapStructured`, about which `structured_whole` speaks), every pixel defined.  Hypotheses: every
+dtype is `f8`; no input has the same field name twice (NumPy does not allow that). -/
+theorem structuredD_allF8 (spc : Bool) (m : Mode) (fill : V) (ndim : Nat) (arrs : List DArr)
+    (hf : ∀ a ∈ arrs, ∀ f ∈ a.fields, f.2.1 = DT.f8)
+    (hn : ∀ a ∈ arrs, (a.fields.map (·.1)).Nodup) :
+    overlapStructuredD spc m fill ndim arrs
+      = .ok ((overlapStructured spc m fill ndim (arrs.map DArr.toS)).map
+          (fun r => (r.1, DT.f8, (r.2.1, r.2.2.map some)))) := by
+  have hnames : ((mergedDescr arrs).map (·.1)) = mergedNames (arrs.map DArr.toS) := by
+    rw [mergedDescr_allF8 arrs hf, List.map_map]
+    simp [Function.comp_def]
+  have hnd : hasDup ((mergedDescr arrs).map (·.1)) = false := by
+    rw [hnames, hasDup_eq_false_iff]
+    apply mergedNames_nodup
+    intro a ha
+    obtain ⟨b, hb, rfl⟩ := List.mem_map.mp ha
+    have : (b.toS.fields.map (·.1)) = b.fields.map (·.1) := by simp [DArr.toS, List.map_map, Function.comp_def]
+    rw [this]
+    exact hn b hb
+  unfold overlapStructuredD
+  simp only [hnd, Bool.false_eq_true, if_false]
+  have hfo : ∀ d ∈ mergedDescr arrs,
+      (fieldOutcome spc m fill ndim arrs d.1 d.2).map (fun r => (d.1, d.2, r))
+        = pure (d.1, DT.f8, ((overlap spc m fill ndim ((arrs.map DArr.toS).map (·.field d.1))).1,
+            (overlap spc m fill ndim ((arrs.map DArr.toS).map (·.field d.1))).2.map some)) := by
+    intro d hd
+    have hd2 : d.2 = DT.f8 := by
+      rw [mergedDescr_allF8 arrs hf] at hd
+      obtain ⟨n, -, rfl⟩ := List.mem_map.mp hd
+      rfl
+    simp only [fieldOutcome, canvasDT_allF8 arrs hf, hd2, reduceCtorEq, if_false, List.map_map]
+    have : castTo DT.f8 = some := by funext v; cases v <;> rfl
+    rw [this]
+    rfl
+  rw [mapM_ok_of_forall _ _ _ hfo]  -- every field is `.ok`
+  congr 1
+  rw [mergedDescr_allF8 arrs hf]
+  simp only [overlapStructured, List.map_map]
+  rfl
+
+/-- **when does the structured merge raise on the merged dtype**: exactly when two inputs carry the
+same field name with different dtypes (the code merges (name, dtype) pairs, not names), and then
+the model returns `ValueError` — as `np.empty` does for a dtype with a repeated field name.
+Hypothesis: no input has the same field name twice. -/
+theorem structuredD_raises_iff (arrs : List DArr) (hn : ∀ a ∈ arrs, (a.fields.map (·.1)).Nodup) :
+    hasDup ((mergedDescr arrs).map (·.1)) = true
+      ↔ ∃ a ∈ arrs, ∃ b ∈ arrs, ∃ (n : String) (d₁ d₂ : DT), (n, d₁) ∈ a.descr ∧ (n, d₂) ∈ b.descr ∧ d₁ ≠ d₂ := by
+  have hnd := mergedDescr_nodup arrs hn
+  rw [← Bool.not_eq_false, hasDup_eq_false_iff, List.nodup_map_iff_inj_on hnd]
+  constructor
+  · intro h
+    by_contra hcon
+    apply h
+    intro x hx y hy hxy
+    obtain ⟨a, ha, hxa⟩ := (mergedDescr_mem arrs x).mp hx
+    obtain ⟨b, hb, hyb⟩ := (mergedDescr_mem arrs y).mp hy
+    obtain ⟨n, d₁⟩ := x
+    obtain ⟨n', d₂⟩ := y
+    simp only at hxy
+    subst hxy
+    by_cases e : d₁ = d₂
+    · rw [e]
+    · exact absurd ⟨a, ha, b, hb, n, d₁, d₂, hxa, hyb, e⟩ hcon
+  · rintro ⟨a, ha, b, hb, n, d₁, d₂, h1, h2, hne⟩ h
+    have := h (n, d₁) ((mergedDescr_mem arrs _).mpr ⟨a, ha, h1⟩) (n, d₂) ((mergedDescr_mem arrs _).mpr ⟨b, hb, h2⟩) rfl
+    exact hne (by simpa using this)
+
+theorem structuredD_clash_raises (spc : Bool) (m : Mode) (fill : V) (ndim : Nat) (arrs : List DArr)
+    (a b : DArr) (ha : a ∈ arrs) (hb : b ∈ arrs) (n : String) (d₁ d₂ : DT)
+    (h1 : (n, d₁) ∈ a.descr) (h2 : (n, d₂) ∈ b.descr) (hne : d₁ ≠ d₂)
+    (hn : ∀ a ∈ arrs, (a.fields.map (·.1)).Nodup) :
+    overlapStructuredD spc m fill ndim arrs = .error "ValueError" := by
+  unfold overlapStructuredD
+  simp only [(structuredD_raises_iff arrs hn).mpr ⟨a, ha, b, hb, n, d₁, d₂, h1, h2, hne⟩, if_true]
+
+/-- non-vacuity: a `float64` field `A` in one input and a `float32` field `A` in another -/
+example : overlapStructuredD false .replace none 1
+    [⟨[0], [1], [("A", .f8, fun _ => some 1)]⟩, ⟨[1], [1], [("A", .f4, fun _ => some 2)]⟩] = .error "ValueError" := by
+  rfl
+
 /-! ## non-vacuity and regression witnesses -/
 
 /-- a 2×2 image of ones at (0,0) and a 2×2 image at (1,1) holding a NaN -/
@@ -221,6 +444,31 @@ example : [exA, exB] ≠ [] ∧ (∀ a ∈ [exA, exB], a.off.length = 2) ∧ ([5
 /-- on that input the three kinds of pixel all occur: two contributions, a NaN-only pixel, an uncovered pixel -/
 example : contribs [exA, exB] [1, 1] = [1, 2] ∧ contribs [exA, exB] [2, 1] = [] ∧ exB.at [2, 1] = some none
     ∧ exA.at [0, 2] = none ∧ exB.at [0, 2] = none := by decide +kernel
+
+/-- hypotheses of `overlap_perm_invariant` on that input, and the reason `replace` is excluded: the
+two orders of the same inputs differ at the doubly covered pixel -/
+example : [exA, exB].Perm [exB, exA] ∧ Mode.sum ≠ Mode.replace
+    ∧ mech .replace none [exA, exB] [1, 1] = some 2 ∧ mech .replace none [exB, exA] [1, 1] = some 1 := by
+  refine ⟨List.Perm.swap _ _ _, by decide, by decide +kernel, by decide +kernel⟩
+
+/-- `replace_last_writer` on that input: at (1,1) the last input wins, at (2,1) (its NaN) and at
+(0,0) (outside it) the first input's result shows through -/
+example : (exB.at [1, 1]).join = some 2 ∧ (exB.at [2, 1]).join = none ∧ (exB.at [0, 0]).join = none
+    ∧ mech .replace none ([exA] ++ [nanLike exB]) [0, 0] = some 1 := by decide +kernel
+
+/-- two structured inputs with overlapping and disjoint `float64` fields: the hypotheses of
+`structuredD_allF8` / `structuredD_raises_iff` hold -/
+def exD1 : DArr := ⟨[0], [2], [("A", .f8, fun _ => some 1), ("B", .f8, fun _ => none)]⟩
+def exD2 : DArr := ⟨[1], [2], [("C", .f8, fun _ => some 3), ("A", .f8, fun _ => some 2)]⟩
+
+example : (∀ a ∈ [exD1, exD2], ∀ f ∈ a.fields, f.2.1 = DT.f8) ∧ (∀ a ∈ [exD1, exD2], (a.fields.map (·.1)).Nodup)
+    ∧ mergedDescr [exD1, exD2] = [("A", .f8), ("B", .f8), ("C", .f8)] := by
+  refine ⟨?_, ?_, ?_⟩
+  · simp only [exD1, exD2, List.mem_cons, List.not_mem_nil, or_false]
+    rintro a (rfl | rfl) f hf <;> simp only [List.mem_cons, List.not_mem_nil, or_false] at hf <;>
+      rcases hf with rfl | rfl <;> rfl
+  · simp [exD1, exD2]
+  · simp [exD1, exD2, mergedDescr, DArr.descr]
 
 /-- the mechanism before the repair is wrong: with a finite fill it adds the fill into the sum
 (11 instead of 1 where only the first image contributes), and a pixel covered only by a NaN becomes
